@@ -159,7 +159,7 @@ pub struct Opts {
 
 /// Runs closure + ranking on any automaton; shape if `trie` is given; table if additionally the
 /// automaton is Standard.
-pub fn check_structure(pma: &Pma<u32>, trie: Option<&SymTrie>, opts: &Opts) -> StructReport {
+pub fn check_structure<V: Copy>(pma: &Pma<V>, trie: Option<&SymTrie>, opts: &Opts, val: impl Fn(V) -> u32) -> StructReport {
     let mut r = StructReport::default();
     let (len, olen) = pma.lens();
     r.table_len = len;
@@ -487,7 +487,7 @@ pub fn check_structure(pma: &Pma<u32>, trie: Option<&SymTrie>, opts: &Opts) -> S
         let mut pos = st.output_pos;
         while pos != 0 && got.len() <= olen {
             let o = outputs[(pos - 1) as usize];
-            got.push((o.value, o.length));
+            got.push((val(o.value), o.length));
             pos = o.parent;
         }
         r.output_lists_checked += 1;
